@@ -330,16 +330,38 @@ type FrOfPmTreeHasher = FrOf<PmTreeHasher>;
 
 impl PmTree {
     fn remove_indices(&mut self, indices: &[usize]) -> Result<()> {
-        let start = indices[0];
-        let end = indices.last().unwrap() + 1;
+        if indices.iter().any(|&i| i >= self.capacity()) {
+            return Err(Report::msg("index to remove exceeds set size"));
+        }
+        // positions at or above next_index already hold the default leaf
+        let next_index = self.leaves_set();
+        let removed = indices
+            .iter()
+            .copied()
+            .filter(|&i| i < next_index)
+            .collect::<Vec<_>>();
+        if removed.is_empty() {
+            return Ok(());
+        }
+        // indices are sorted by the caller
+        let start = removed[0];
+        let end = removed.last().unwrap() + 1;
 
-        let new_leaves = (start..end).map(|_| PmTreeHasher::default_leaf());
+        // only the removed positions are reset, the ones in between keep their value
+        let mut new_leaves = Vec::with_capacity(end - start);
+        for i in start..end {
+            if removed.binary_search(&i).is_ok() {
+                new_leaves.push(PmTreeHasher::default_leaf());
+            } else {
+                new_leaves.push(self.tree.get(i)?);
+            }
+        }
 
         self.tree
             .set_range(start, new_leaves)
             .map_err(|e| Report::msg(e.to_string()))?;
 
-        for i in start..end {
+        for i in removed {
             self.cached_leaves_indices[i] = 0
         }
         Ok(())
